@@ -12,6 +12,12 @@
 //!       entry.  A thread that is about to lock while the lock is held (probed with `try_lock`)
 //!       is *blocked*: it is not released.  Afterwards the lock holder, then the threads in
 //!       order, run to completion.
+//!   `glue <op>,<op>,…`   ops: `h<u>` / `hn` = `RelayActorMessage::NetworkChange` whose report prefers
+//!       relay u / no relay, `t<u>` = a datagram via relay u (opens a non-home connection), u ∈ {0,1}.
+//!       The REAL `RelayActor` (hook `RelayActorDriver`) runs against two in-process relay servers;
+//!       one message at a time, the harness waits (bounded) until the actor has handled it (hook
+//!       trace), reads the watch at once, then waits (bounded) for the home relay to report
+//!       `Connected`.  Output `glue` + after every op the advertised relay: `n`, `<u>C`, `<u>-`.
 //!   `stress <urls> <updaters per url> <rounds>`
 //!       free-running: one chooser thread (the only writer of urls, like the `RelayActor`) and
 //!       `urls × updaters` threads hammering `set_status` for their url.  After every choice the
@@ -32,11 +38,182 @@ use std::{
     time::Duration,
 };
 
-use iroh::verif_hooks::{pause, transports::relay::home_relay::HomeRelay};
+use iroh::verif_hooks::{
+    pause,
+    transports::relay::home_relay::{HomeRelay, RelayActorDriver},
+};
 use iroh_base::RelayUrl;
 use vcommon::*;
 
-struct C26;
+struct C26 {
+    glue: Option<Result<GlueSession, String>>,
+}
+
+/// Two in-process relay servers and the runtime the real `RelayActor` runs on.
+struct GlueSession {
+    rt: tokio::runtime::Runtime,
+    urls: Vec<RelayUrl>,
+    map: iroh::RelayMap,
+    _servers: Vec<iroh_relay::server::Server>,
+}
+
+impl GlueSession {
+    fn new() -> Result<Self, String> {
+        let rt = tokio::runtime::Builder::new_multi_thread()
+            .worker_threads(4)
+            .enable_all()
+            .build()
+            .map_err(|e| format!("runtime: {e}"))?;
+        let (urls, map, servers) = rt.block_on(async {
+            let (m0, u0, s0) = iroh::test_utils::run_relay_server().await.map_err(|e| format!("relay 0: {e:?}"))?;
+            let (m1, u1, s1) = iroh::test_utils::run_relay_server().await.map_err(|e| format!("relay 1: {e:?}"))?;
+            m0.extend(&m1);
+            Ok::<_, String>((vec![u0, u1], m0, vec![s0, s1]))
+        })?;
+        Ok(GlueSession { rt, urls, map, _servers: servers })
+    }
+}
+
+#[derive(Debug, Clone, Copy, PartialEq)]
+enum GlueOp {
+    Home(Option<usize>),
+    Traffic(usize),
+}
+
+fn parse_glue_op(s: &str) -> Option<GlueOp> {
+    if s == "hn" {
+        return Some(GlueOp::Home(None));
+    }
+    let (k, r) = s.split_at_checked(1)?;
+    let u = parse_nat(r)?;
+    if u > 1 {
+        return None;
+    }
+    match k {
+        "h" => Some(GlueOp::Home(Some(u as usize))),
+        "t" => Some(GlueOp::Traffic(u as usize)),
+        _ => None,
+    }
+}
+
+const HANDLED: &str = "relay-actor network-change handled";
+const GLUE_WAIT: Duration = Duration::from_secs(10);
+
+fn handled_count() -> usize {
+    pause::trace::since(0).iter().filter(|e| e.starts_with(HANDLED)).count()
+}
+
+fn wait_until(limit: Duration, mut cond: impl FnMut() -> bool) -> bool {
+    let deadline = std::time::Instant::now() + limit;
+    loop {
+        if cond() {
+            return true;
+        }
+        if std::time::Instant::now() > deadline {
+            return false;
+        }
+        std::thread::sleep(Duration::from_millis(2));
+    }
+}
+
+fn run_glue(sess: &GlueSession, ops: &[GlueOp], seed: u64) -> Exec {
+    pause::trace::enable(true);
+    let key = iroh_base::SecretKey::from_bytes(&{
+        let mut b = [7u8; 32];
+        b[..8].copy_from_slice(&seed.to_le_bytes());
+        b
+    });
+    let peer = iroh_base::SecretKey::from_bytes(&[9u8; 32]).public();
+    let driver = {
+        let _g = sess.rt.enter();
+        RelayActorDriver::start(key, sess.map.clone(), iroh_relay::tls::make_dangerous_client_config())
+    };
+    let idx = |u: &RelayUrl| sess.urls.iter().position(|x| x == u);
+    let render = |w: &Option<(RelayUrl, u8)>| match w {
+        None => "n".to_string(),
+        Some((u, st)) => format!("{}{}", idx(u).map_or("?".to_string(), |i| i.to_string()), if *st == 1 { "C" } else { "-" }),
+    };
+    let mut out = vec!["glue".to_string()];
+    let mut ex = Exec::default();
+    let mut changed = 0;
+    let mut existing_actor_became_home = false;
+    let mut has_actor = [false, false];
+    let mut home: Option<usize> = None;
+    for (i, op) in ops.iter().enumerate() {
+        match *op {
+            GlueOp::Home(r) => {
+                let before = handled_count();
+                let url = r.map(|u| sess.urls[u].clone());
+                if !sess.rt.block_on(driver.network_change(url)) {
+                    ex.infra = Some("relay actor inbox closed".into());
+                    break;
+                }
+                if !wait_until(GLUE_WAIT, || handled_count() > before) {
+                    ex.infra = Some(format!("op {i}: the relay actor did not handle the NetworkChange within {GLUE_WAIT:?}"));
+                    break;
+                }
+                // --- the property: the watch shows the newly chosen relay at once ---
+                let now = driver.get();
+                let adv = now.as_ref().and_then(|(u, _)| idx(u));
+                if adv != r {
+                    ex.violation(
+                        "stale-home-relay",
+                        format!("op {i}: NetworkChange preferring relay {r:?} has been handled, the watch advertises {adv:?} (actors existed for {has_actor:?})"),
+                    );
+                }
+                if r != home {
+                    changed += 1;
+                    if let Some(u) = r {
+                        existing_actor_became_home |= has_actor[u];
+                    }
+                }
+                home = r;
+                if let Some(u) = r {
+                    has_actor[u] = true;
+                    // the new home's status updates are accepted: it reports Connected
+                    let ok = wait_until(GLUE_WAIT, || matches!(driver.get(), Some((ref w, 1)) if idx(w) == Some(u)));
+                    if !ok && adv == r {
+                        ex.violation(
+                            "home-status-missing",
+                            format!("op {i}: relay {u} is home and its test relay is up, but the watch never showed it Connected: {:?}", driver.get().map(|(w, s)| (idx(&w), s))),
+                        );
+                    }
+                }
+            }
+            GlueOp::Traffic(u) => {
+                let started = |u: usize| {
+                    let needle = format!("relay-actor started active relay {}", sess.urls[u]);
+                    pause::trace::since(0).iter().filter(|e| **e == needle).count()
+                };
+                let before = started(u);
+                if !sess.rt.block_on(driver.send_via(sess.urls[u].clone(), peer)) {
+                    ex.infra = Some("relay actor send channel closed".into());
+                    break;
+                }
+                if !has_actor[u] && !wait_until(GLUE_WAIT, || started(u) > before) {
+                    ex.infra = Some(format!("op {i}: no connection to relay {u} was started within {GLUE_WAIT:?}"));
+                    break;
+                }
+                has_actor[u] = true;
+                // let the datagram reach the ActiveRelayActor
+                std::thread::sleep(Duration::from_millis(20));
+                let adv = driver.get().as_ref().and_then(|(w, _)| idx(w));
+                if adv != home {
+                    ex.violation("stale-home-relay", format!("op {i}: traffic via relay {u} changed the advertised relay to {adv:?}, home is {home:?}"));
+                }
+            }
+        }
+        out.push(render(&driver.get()));
+    }
+    driver.shutdown();
+    ex.out = out.join(" ");
+    ex.tags.push("glue".into());
+    if existing_actor_became_home {
+        ex.tags.push("glue-existing-actor-becomes-home".into());
+    }
+    ex.nontrivial = changed >= 2;
+    ex
+}
 
 #[derive(Debug, Clone, Copy, PartialEq)]
 enum Call {
@@ -397,6 +574,28 @@ impl Prop for C26 {
         use Call::*;
         // the interleaving of defect D10 (blocked by the writer lock since the fix)
         out.push(fmt_case(&[vec![Status(0, 1)], vec![Choose(Some(0)), Choose(Some(1))]], &[1, 1, 1, 0, 0, 0, 1, 1, 1, 0]));
+        // the caller: the real RelayActor, home changes with and without existing connections
+        for g in [
+            "h0,t1,h1",          // the new home already has a (non-home) connection
+            "h0,h1,h0",          // back to a former home whose actor is still alive
+            "h0,t1,h1,h0,hn,h1", // … and through "no home relay"
+            "t1,t0,h1,h0,h0",
+            "h1,hn,t0,h0,t1,h1",
+        ] {
+            out.push(format!("glue {g}"));
+        }
+        let n_glue = if tier == Tier::Thorough { 60 } else { 12 };
+        for _ in 0..n_glue {
+            let len = rng.range(2, 7);
+            let ops: Vec<String> = (0..len)
+                .map(|_| match rng.below(8) {
+                    0 => "hn".to_string(),
+                    1..=4 => format!("h{}", rng.below(2)),
+                    _ => format!("t{}", rng.below(2)),
+                })
+                .collect();
+            out.push(format!("glue {}", ops.join(",")));
+        }
         // free-running
         out.push("stress 2 2 300".into());
         if tier == Tier::Thorough {
@@ -427,7 +626,7 @@ impl Prop for C26 {
             }
         }
         // malformed
-        for bad in ["", "sched", "sched c0 x", "sched s0.9 0", "sched c-1 0", "stress 1", "sched c0|s0.1 0,,1", "nonsense 1 2 3"] {
+        for bad in ["glue", "glue h2", "glue x0", "glue h0,,t1", "", "sched", "sched c0 x", "sched s0.9 0", "sched c-1 0", "stress 1", "sched c0|s0.1 0,,1", "nonsense 1 2 3"] {
             out.push(bad.to_string());
         }
         // seeded random scripts
@@ -474,6 +673,26 @@ impl Prop for C26 {
                     _ => Exec::new("bad-input").tag("malformed"),
                 }
             }
+            ["glue", ops] => {
+                let parsed: Option<Vec<GlueOp>> = ops.split(',').map(parse_glue_op).collect();
+                match parsed {
+                    Some(ops) if ops.len() <= 24 => {
+                        let sess = self.glue.get_or_insert_with(GlueSession::new);
+                        match sess {
+                            Ok(sess) => {
+                                let seed = ops.len() as u64;
+                                run_glue(sess, &ops, seed)
+                            }
+                            Err(e) => {
+                                let mut ex = Exec::new("glue");
+                                ex.infra = Some(format!("glue session: {e}"));
+                                ex
+                            }
+                        }
+                    }
+                    _ => Exec::new("bad-input").tag("malformed"),
+                }
+            }
             ["stress", u, p, r] => match (parse_nat(u), parse_nat(p), parse_nat(r)) {
                 (Some(u), Some(p), Some(r)) if u >= 1 && u * p <= 64 => run_stress(u, p, r),
                 _ => Exec::new("bad-input").tag("malformed"),
@@ -484,5 +703,5 @@ impl Prop for C26 {
 }
 
 fn main() {
-    run(C26);
+    run(C26 { glue: None });
 }
